@@ -1,32 +1,23 @@
 #!/usr/bin/env python3
-"""Writes MANIFEST.json from the table below (one place to edit)."""
+"""Assembles MANIFEST.json from manifest.d/Cxx.json and known_findings.json from
+findings.d/Cxx.json.  Run by hand after editing a fragment (never at check time)."""
 import json, os
 HERE = os.path.dirname(os.path.dirname(os.path.abspath(__file__)))
 ALL = [f"C{i:02d}" for i in range(1, 20)]
-
-CHECKS = {
- "C08": dict(
-    engine="E1 cell codec",
-    category="proof",
-    text=("Coq theorems over a Gallina mirror of CellParser (escape, scanner, cleanse, join): string and nested-list "
-          "round trips for every value in the stated domain, string-vs-list characterisation, inertness of the escape "
-          "filter, proved by structural induction with no size bound; constants regenerated from the source each run; "
-          "mirror tied to the code by exhaustive small-scope + random differential execution of the extracted model."),
-    design_ref="DESIGN.md §4-E1, §5-C08",
-    note=("Trusted: Coq kernel, translator, ExtrOcamlBasic extraction + driver, harness; Jinja2 modelled only as "
-          "'renders {{x|escape}} through escape_string' (checked behaviourally). parse() = strip+split is covered by the tie, "
-          "the theorem is stated for split_into_lists."),
-    technique="Coq proof (induction) + regenerated tables + differential correspondence (extracted OCaml vs Python)"),
-}
-
-NOT_YET = "machinery for this property is not built yet in this round (planned; see DESIGN.md §8 build order)"
+NOT_YET = "machinery for this property is not built yet (planned; see DESIGN.md §8 build order)"
 
 def main():
-    checks = []
+    checks, engines, na = [], [], []
+    seen_eng = set()
     for pid in ALL:
-        if pid not in CHECKS:
+        fp = os.path.join(HERE, "manifest.d", f"{pid}.json")
+        if not os.path.exists(fp):
+            na.append({"property_id": pid, "reason": NOT_YET})
             continue
-        c = CHECKS[pid]
+        c = json.load(open(fp))
+        if c.get("not_applicable"):
+            na.append({"property_id": pid, "reason": c["not_applicable"]})
+            continue
         checks.append({
             "property_id": pid,
             "quick_cmd": f"./check {pid} --tier quick",
@@ -38,26 +29,35 @@ def main():
             "level_note": c["note"],
             "technique": c["technique"],
         })
+        for e in c.get("engines", []):
+            if e["name"] not in seen_eng:
+                seen_eng.add(e["name"])
+                engines.append(e)
+    hooks_fp = os.path.join(HERE, "manifest.d", "hooks.json")
+    hooks = json.load(open(hooks_fp)) if os.path.exists(hooks_fp) else {
+        "guard": "RPFT_VERIF",
+        "enable": "no source hook exists: every observable is reachable from outside (DESIGN.md §7)",
+        "baseline_off_cmd": "cd /repo && /venv/bin/python -m pytest -ra -q -p no:cacheprovider --timeout=900 --continue-on-collection-errors",
+        "source_commits": [],
+        "add_only": True,
+    }
     man = {
         "version": 1,
         "setup_cmd": "./setup.sh",
-        "hooks": {
-            "guard": "RPFT_VERIF",
-            "enable": "no source hook exists: every observable is reachable from outside (DESIGN.md §7)",
-            "baseline_off_cmd": "cd /repo && /venv/bin/python -m pytest -ra -q -p no:cacheprovider --timeout=900 --continue-on-collection-errors",
-            "source_commits": [],
-            "add_only": True,
-        },
-        "engines": [
-            {"name": "E1 cell codec", "path": "coq/theories/Cell", "serves_properties": ["C08", "C07", "C09", "C16"],
-             "kind_free_text": "Gallina model + proofs; extracted to OCaml for the correspondence"},
-        ],
+        "hooks": hooks,
+        "engines": engines,
         "checks": checks,
-        "notes": "Technique: machine-checked proof in Coq 8.16.1; model tied to /repo by regenerated tables and differential correspondence. See DESIGN.md.",
-        "not_applicable": [{"property_id": p, "reason": NOT_YET} for p in ALL if p not in CHECKS],
+        "notes": "Technique: machine-checked proof in Coq 8.16.1; model tied to /repo by regenerated tables and differential correspondence (extracted OCaml model vs the Python implementation). See DESIGN.md.",
+        "not_applicable": na,
     }
-    with open(os.path.join(HERE, "MANIFEST.json"), "w") as f:
-        json.dump(man, f, indent=1)
+    json.dump(man, open(os.path.join(HERE, "MANIFEST.json"), "w"), indent=1)
+    findings = []
+    fdir = os.path.join(HERE, "findings.d")
+    for fn in sorted(os.listdir(fdir)):
+        if fn.endswith(".json"):
+            findings += json.load(open(os.path.join(fdir, fn))).get("findings", [])
+    json.dump({"_comment": "assembled from findings.d/*.json by tools/mkmanifest.py; never written at check time",
+               "findings": findings}, open(os.path.join(HERE, "known_findings.json"), "w"), indent=1)
 
 if __name__ == "__main__":
     main()
